@@ -3,12 +3,14 @@
    shape denotes a proved schema becomes the instance `mk (body name)` of that schema for an ARBITRARY per-slice body;
    a merge_linters! row becomes remove_overlaps over the union of chunk-schema instances of its sub-rules' bodies, a
    ThenRemoveOverlaps row remove_overlaps over the instance of its inner schema; every other row is an arbitrary rule
-   `other name`.  What is assumed: (1) para_local (other name) for the names in `residue` — computed from the table,
-   pinned to five names; (2) for the bodies that run under a document-wide remove_overlaps (`ro_bodies`, pinned to ten
+   `other name`.  Phase 5: the UnclosedQuotes row (TokenLoop) becomes the EXACT body C12Windows.unclosed_quotes; a
+   TupleWindows n / Neighbourhood 0 (n-1) row with a complete kind guard of length n in the generated `window_guards`
+   becomes `guarded_rule guard (body name)` for an arbitrary body.  What is assumed: (1) para_local (other name) for the names in `residue` — computed from the table,
+   pinned to ONE name (CommaFixes; five before phase 5); (2) for the bodies that run under a document-wide remove_overlaps (`ro_bodies`, pinned to ten
    names): every lint they report lies inside the slice (g0_inside).  Nothing is assumed of the pattern rules (chunk_fn). *)
 From Coq Require Import List String Arith Lia Sorting.Permutation.
 Require Import Base Overlap Lexer ParaSplit ParaSplitProofs C12Doc LexSplitProofs C12CondSplit
-  Tables_c12rules C12RuleShapes C12Merge C12MergeProofs.
+  Tables_c12rules C12RuleShapes C12Merge C12MergeProofs C12Windows C12WindowsProofs.
 Import ListNotations.
 Open Scope list_scope.
 
@@ -25,6 +27,21 @@ Definition iter_pred (s : rule_shape) : option (kind -> bool) :=
   | _ => None
   end.
 
+(* a window body with a complete kind guard (Tables_c12rules.window_guards) of the width the shape says *)
+Definition guarded_row (g0 : string -> body) (name : string) (n : nat) : option rule :=
+  match guard_of name window_guards with
+  | Some g => if Nat.eqb (length g) n && negb (Nat.eqb n 0) then Some (guarded_rule g (g0 name)) else None
+  | None => None
+  end.
+
+Lemma guarded_row_local g0 name n x : guarded_row g0 name n = Some x -> para_local x.
+Proof.
+  unfold guarded_row. destruct (guard_of name window_guards) as [g|]; [|discriminate].
+  destruct (Nat.eqb (length g) n && negb (Nat.eqb n 0)) eqn:E; [|discriminate]. intros [= <-].
+  apply guarded_local. intros ->. apply andb_true_iff in E. destruct E as [E1 E2].
+  apply Nat.eqb_eq in E1. cbn [length] in E1. subst n. discriminate.
+Qed.
+
 (* the rule a row denotes, given the per-slice bodies by name; None = outside every proved shape *)
 Definition row_rule (g0 : string -> body) (r : row) : option rule :=
   match resolve (row_shape r) with
@@ -38,6 +55,10 @@ Definition row_rule (g0 : string -> body) (r : row) : option rule :=
       | Some p => Some (then_remove_overlaps (schema_rule p (g0 (row_name r))))
       | None => None
       end
+  | TokenLoop =>                                                     (* the one token loop that is modelled exactly *)
+      if String.eqb (row_name r) "UnclosedQuotes" then Some unclosed_quotes else None
+  | TupleWindows n => guarded_row g0 (row_name r) n
+  | Neighbourhood 0 fwd => guarded_row g0 (row_name r) (S fwd)
   | s => match shape_schema s with Some mk => Some (mk (g0 (row_name r))) | None => None end
   end.
 
@@ -66,16 +87,23 @@ Lemma row_rule_local g0 r x :
   row_rule g0 r = Some x -> (forall b, In b (row_ro_bodies r) -> g0_inside (g0 b)) -> para_local x.
 Proof.
   unfold row_rule, row_ro_bodies. intros H Hin.
-  destruct (resolve (row_shape r)) eqn:Es;
+  destruct (resolve (row_shape r)) as [| | | | | |n|back fwd| |inner] eqn:Es;
     try (destruct (shape_schema _) as [mk|] eqn:Em; [|discriminate]; injection H as <-;
          eapply shape_local; exact Em).
+  - (* TokenLoop: UnclosedQuotes, exact body *)
+    destruct (String.eqb (row_name r) "UnclosedQuotes"); [|discriminate]. injection H as <-.
+    apply unclosed_quotes_local.
+  - (* TupleWindows *) eapply guarded_row_local; exact H.
+  - (* Neighbourhood *)
+    destruct back; [eapply guarded_row_local; exact H|].
+    cbn [shape_schema] in H. discriminate.
   - (* Merge *)
     destruct (iter_pred (resolve ViaPatternLinter)) as [p|] eqn:Ep; [|discriminate]. injection H as <-.
     apply merge_local; apply Forall_forall; intros q Hq; apply in_map_iff in Hq; destruct Hq as (sub & <- & Hsub).
     + eapply iter_pred_local; exact Ep.
     + apply schema_inside. now apply Hin.
   - (* ThenRemoveOverlaps *)
-    destruct (iter_pred (resolve r0)) as [p|] eqn:Ep; [|discriminate]. injection H as <-.
+    destruct (iter_pred (resolve inner)) as [p|] eqn:Ep; [|discriminate]. injection H as <-.
     apply then_remove_overlaps_local.
     + eapply iter_pred_local; exact Ep.
     + apply schema_inside. apply Hin. now left.
@@ -83,9 +111,12 @@ Qed.
 
 Lemma covered_spec g0 r : covered r = match row_rule g0 r with Some _ => true | None => false end.
 Proof.
-  unfold covered, row_rule. destruct (resolve (row_shape r)); try reflexivity;
+  unfold covered, row_rule, guarded_row.
+  destruct (resolve (row_shape r)) as [| | | | | |n|back fwd| |inner]; try reflexivity;
     try (destruct (shape_schema _); reflexivity).
-  destruct r0; reflexivity.
+  - destruct (guard_of _ _) as [g|]; [|reflexivity]. destruct (_ && _); reflexivity.
+  - destruct back; [|reflexivity]. destruct (guard_of _ _) as [g|]; [|reflexivity]. destruct (_ && _); reflexivity.
+  - destruct inner; reflexivity.
 Qed.
 
 Theorem curated_rules_local g0 other :
@@ -101,10 +132,9 @@ Proof.
     rewrite (covered_spec g0), E. reflexivity.
 Qed.
 
-(* the table side, recomputed on every run: exactly five rules are outside every proved shape, exactly ten bodies run
-   under a document-wide remove_overlaps *)
-Definition residue_expected : list string :=
-  ["AdjectiveOfA"; "UnclosedQuotes"; "CommaFixes"; "MergeWords"; "InflectedVerbAfterTo"]%string.
+(* the table side, recomputed on every run: exactly ONE rule is outside every proved shape (phase 4: five), exactly ten
+   bodies run under a document-wide remove_overlaps *)
+Definition residue_expected : list string := ["CommaFixes"]%string.
 Definition ro_bodies_expected : list string :=
   ["ToHop"; "ToHope"; "GeneralCompoundNouns"; "ImpliedInstantiatedCompoundNouns"; "ImpliedOwnershipCompoundNouns";
    "ShouldContract"; "AvoidContraction"; "CurrencyPlacement"; "LetUsRedundancy"; "NoContractionWithVerb"]%string.
@@ -130,8 +160,58 @@ Proof.
   apply curated_rules_local; [rewrite E1|rewrite E2]; assumption.
 Qed.
 
+(* the same with the residue spelled out: ONE rule *)
+Theorem main_final u :
+  u_whitespace u NL = true -> u_numeric u NL = false -> u_alphabetic u NL = false -> u_lingual u NL = false ->
+  forall chunk_fn (g0 : string -> body) (other : string -> rule),
+  para_local (other "CommaFixes"%string) ->
+  (forall b, In b ro_bodies_expected -> g0_inside (g0 b)) ->
+  forall P D, c12_premise P -> no_leading_nl D ->
+    Permutation (lints (doc_tokens u) chunk_fn (curated_rules g0 other) (P ++ D))
+                (lints (doc_tokens u) chunk_fn (curated_rules g0 other) P
+                 ++ map (shift_lint (length P)) (lints (doc_tokens u) chunk_fn (curated_rules g0 other) D)).
+Proof.
+  intros H1 H2 H3 H4 chunk_fn g0 other Hc Hro. apply (main u H1 H2 H3 H4); [|exact Hro].
+  intros name [<-|[]]. exact Hc.
+Qed.
+
+(* the table side of phase 5 (recomputed on every run): the three guarded window bodies, and what the rows of the four
+   rules that left the residue denote *)
+Definition window_guards_expected : list (string * list kpat) :=
+  [("AdjectiveOfA", [PWord; PWhitespace; PWord; PWhitespace; PWord]); ("MergeWords", [PWord; PWhitespace; PWord]);
+   ("InflectedVerbAfterTo", [PWord; PWhitespace; PWord])]%string.
+Definition row_of (name : string) : option row := find (fun r => String.eqb (row_name r) name) struct_rules.
+Definition rule_of (g0 : string -> body) (name : string) : option rule :=
+  match row_of name with Some r => row_rule g0 r | None => None end.
+
+Theorem windows_pinned g0 :
+  window_guards = window_guards_expected /\
+  rule_of g0 "UnclosedQuotes" = Some unclosed_quotes /\
+  rule_of g0 "MergeWords" = Some (guarded_rule [PWord; PWhitespace; PWord] (g0 "MergeWords"%string)) /\
+  rule_of g0 "InflectedVerbAfterTo" = Some (guarded_rule [PWord; PWhitespace; PWord] (g0 "InflectedVerbAfterTo"%string)) /\
+  rule_of g0 "AdjectiveOfA"
+  = Some (guarded_rule [PWord; PWhitespace; PWord; PWhitespace; PWord] (g0 "AdjectiveOfA"%string)) /\
+  rule_of g0 "CommaFixes" = None.
+Proof. repeat split; reflexivity. Qed.
+
+(* non-vacuity of the guarded windows: `ab cd.` BREAK `ef gh` — the guard Word, whitespace, Word passes once on each side
+   and on no window that contains the break; glued = separately + shifted *)
+Definition gw_A : list tok :=
+  [mktok (mkspan 0 2) KWord; mktok (mkspan 2 3) KSpace; mktok (mkspan 3 5) KWord; mktok (mkspan 5 6) KPeriod;
+   mktok (mkspan 6 8) KBreak].
+Definition gw_B : list tok := [mktok (mkspan 0 2) KWord; mktok (mkspan 2 3) KNewline; mktok (mkspan 3 5) KWord].
+Definition gw_P : text := [97; 98; 32; 99; 100; 46; 10; 10]%N.
+Definition gw_D : text := [101; 102; 10; 103; 104]%N.
+Lemma guarded_example :
+  let r := guarded_rule [PWord; PWhitespace; PWord] whole_window in
+  let spans := map (fun l => (lstart l, lend l)) in
+  spans (r gw_A gw_P) = [(0, 5)] /\ spans (r gw_B gw_D) = [(0, 5)] /\
+  spans (r (gw_A ++ map (shift_tok 8 5) gw_B) (gw_P ++ gw_D)) = [(0, 5); (8, 13)] /\
+  length (windows 3 (gw_A ++ map (shift_tok 8 5) gw_B)) = 6.
+Proof. repeat split; vm_compute; reflexivity. Qed.
+
 (* non-vacuity: bodies that report (the first character of every slice / the whole slice), all ten remove_overlaps
-   bodies inside; the five residue rules as one-token window rules; the rule list has 74 entries and on a two-paragraph
+   bodies inside; the residue rule (CommaFixes) as a one-token window rule; the rule list has 74 entries and on a two-paragraph
    text the merged rules really drop overlapping lints *)
 Definition ex_g0 (name : string) : body :=
   fun c chars => match chars with [] => [] | _ :: _ => [mklint (mkspan 0 1) (length c); mklint (mkspan 0 (length chars)) 7] end.
